@@ -74,6 +74,8 @@ def run_conditions(conds, timeout, jobs=None, cost=None):
     import threading
     import queue
     jobs = min(jobs or C.NCPU, max(1, len(conds)))
+    budget = C.budget_s()
+    deadline = (time.time() + budget) if budget else None
     order = sorted(range(len(conds)), key=(lambda i: -cost(conds[i])) if cost else (lambda i: i))
     q = queue.Queue()
     for i in order:
@@ -88,6 +90,10 @@ def run_conditions(conds, timeout, jobs=None, cost=None):
                 c = q.get_nowait()
             except queue.Empty:
                 break
+            if deadline and time.time() > deadline:
+                with lock:
+                    out[c.oid] = dict(fn=c.fn, state='NOT_EXPLORED', message='wall-time budget of the run exhausted', paths=0, wall=0)
+                continue
             r = w.ask(dict(module=c.module, fn=c.fn, timeout=timeout, key=c.oid), wall=timeout * 2.5 + 60)
             if r is None:
                 w.kill()
@@ -203,6 +209,9 @@ def to_obligations(prop, conds, raw, engine='E1-crosshair', replays_start=0, sch
             o.verdict = DISCHARGED
         elif st in ('POST_FAIL', 'EXEC_ERR', 'POST_ERR'):
             do_replay(c, r, o)
+        elif st == 'NOT_EXPLORED':
+            o.verdict = INCONCLUSIVE
+            o.detail = 'not explored: ' + r['message']
         elif st in ('CANNOT_CONFIRM', 'PRE_UNSAT'):
             o.verdict = INCONCLUSIVE
             o.detail = '%s: %s' % (st, r['message'][:200])
